@@ -183,6 +183,10 @@ def _problem(case, interpolate=False):
         w = rs.randn(k)
         base = w @ basis
         train = np.array([base + 0.3 * np.std(base) * rs.randn(nd_all) for _ in range(r)])
+    elif kind == 'posmix':
+        w = 0.2 + rs.rand(k)
+        base = w @ basis
+        train = np.array([base + 0.1 * np.std(base) * rs.randn(nd_all) for _ in range(r)])
     else:
         train = rs.rand(r, nd_all)
     train = train * scales[:, None] + (0.0 if kind == 'decoy' else 1.0) * rs.rand(r, 1) * scales[:, None]
@@ -626,10 +630,11 @@ def orc_forwarding(case):
         if len(args) != 2 or args[0] is not model or args[1] is not data:
             return 'Fitter did not pass (model, data) positionally'
         want = dict(fixed, pattern_idx=pidx, pattern_descriptor='cond')
-        if set(kwargs) != set(want) or any(kwargs[a] is not want[a] and kwargs[a] != want[a] for a in ('method', 'ridge_weight',
-                                                                                                      'pattern_descriptor')) \
-                or kwargs.get('sigma_k') is not sigma or kwargs.get('pattern_idx') is not pidx:
-            return f'Fitter passed keyword arguments {sorted(kwargs)} / values differ from {sorted(want)}'
+        if set(kwargs) != set(want):
+            return f'Fitter passed the keyword arguments {sorted(kwargs)}, expected {sorted(want)}'
+        for a in want:
+            if not (kwargs[a] is want[a] or (not isinstance(want[a], np.ndarray) and kwargs[a] == want[a])):
+                return f'Fitter passed {a}={kwargs[a]!r} instead of {want[a]!r}'
         calls.clear()
         out = Fitter(rec, method='corr')(model, data, 'cosine_x', pidx)
         args, kwargs = calls[0]
@@ -668,6 +673,13 @@ def _sigma_class(case):
     return 'sigma_k-given,' + ('multi-train' if case['n_train'] > 1 else 'single-train')
 
 
+def _optimum_sign_class(case):
+    """whether (by the spec) the unconstrained maximiser of the criterion has a negative weight"""
+    pb = _problem(case)
+    o = _Crit(case['method'], pb['Y'], pb['V']).optimum(pb['X'], False)
+    return 'optimum-with-negative-weight' if np.any(o < 0) else 'optimum-nonnegative'
+
+
 _SELECTIONS = {
     # n_all -> pattern selections (condition numbers; None = all conditions, no pattern_idx)
     5: [None, [0, 1, 2, 3, 4], [3, 0, 1, 4], [0, 1, 1, 3, 4], [4, 4, 2, 0, 1, 2]],
@@ -687,7 +699,7 @@ def _weighted_cases(thorough, slow):
                     for k in ((2, 3, 4) if thorough else (2, 3)):
                         if not thorough and (si + k + n_all) % 2:
                             continue
-                        kind = ('random', 'mix')[(si + k + seed) % 2]
+                        kind = ('random', 'mix', 'posmix')[(si + k + seed + n_all) % 3]
                         desc = ('index', 'cond')[(si + seed + n_all) % 2]
                         n_train = (1, 3, 4)[(si + k) % 3]
                         base = dict(seed=1000 * seed + 37 * si + k, k=k, n_all=n_all, pidx=pidx, desc=desc, kind=kind,
@@ -706,7 +718,7 @@ def _weighted_cases(thorough, slow):
                                 if slow and not thorough and not (n_all == 5 and si == 3):
                                     continue
                                 cases.append(dict(seed=5000 + 1000 * seed + 37 * si + k + n_train, k=k, n_all=n_all,
-                                                  pidx=_SELECTIONS[n_all][si], desc='index', kind=('mix', 'random')[si % 2],
+                                                  pidx=_SELECTIONS[n_all][si], desc='index', kind=('mix', 'random', 'posmix')[(si + k) % 3],
                                                   method=method, n_train=n_train, sigma=sigma, via='direct'))
     return cases
 
@@ -727,14 +739,17 @@ def tier_c(run, thorough):
         for case in _weighted_cases(thorough, slow):
             if bd.out_of_budget():
                 break
-            bd.check(orc, case, _sigma_class(case), function=fit_name)
+            ic = _sigma_class(case)
+            if fit_name == 'fit_optimize':
+                ic += ',' + _optimum_sign_class(case)
+            bd.check(orc, case, ic, function=fit_name)
         if fit_name == 'fit_optimize':
             # the default fitter of ModelWeighted, called through Model.fit
             for seed in range(2 if thorough else 1):
                 for method in METHODS:
-                    case = dict(seed=9000 + seed, k=3, n_all=6, pidx=[0, 1, 1, 3, 4, 4], desc='cond', kind='mix', method=method,
+                    case = dict(seed=9000 + seed, k=3, n_all=6, pidx=[0, 1, 1, 3, 4, 4], desc='cond', kind='posmix', method=method,
                                 n_train=3, sigma='none', via='model.fit')
-                    bd.check(orc, case, _sigma_class(case), function='ModelWeighted.fit')
+                    bd.check(orc, case, _sigma_class(case) + ',' + _optimum_sign_class(case), function='ModelWeighted.fit')
         bd.done()
         bds.append(bd)
     # ---- selection -----------------------------------------------------------------------------
